@@ -26,7 +26,7 @@ ASSUMPTIONS = ["expected container types are get_type(value) evaluated by the or
                "resolvability classes decided by construction (DESIGN.md section 3)", "single thread"]
 
 _PROG_CACHE = collections.OrderedDict()
-_CACHE_MAX = int(os.environ.get("VERIF_PROG_CACHE", "400"))
+_CACHE_MAX = int(os.environ.get("VERIF_PROG_CACHE", "600"))
 
 
 def n_runs(tier):
@@ -42,6 +42,13 @@ def worker_init():
     if not any(isinstance(h, logging.NullHandler) for h in lg.handlers):
         lg.addHandler(logging.NullHandler())
     lg.propagate = False
+    # cyclic GC runs only between runs (never inside a simulated run): finalisers of unreachable
+    # suspended generators would otherwise fire at allocation-history-dependent moments
+    import gc
+
+    gc.disable()
+    gc.collect()
+    gc.freeze()
 
 
 def get_program(spec):
@@ -51,6 +58,10 @@ def get_program(spec):
         _PROG_CACHE.move_to_end(key)
         return lp
     lp = P.load(spec)
+    import gc
+
+    gc.collect()
+    gc.freeze()
     _PROG_CACHE[key] = lp
     if len(_PROG_CACHE) > _CACHE_MAX:
         _, old = _PROG_CACHE.popitem(last=False)
@@ -96,7 +107,7 @@ def gen_program_spec(seed, pool, slot):
 
 
 def gen(rng, index, tier, prop_id=ID):
-    pool = 512 if tier == "quick" else 16384
+    pool = 512 if tier == "quick" else 4096
     # the program is one of `pool` seeded programs (compiled programs are cached per worker);
     # knobs that shape the schedule are drawn per run
     seed0 = rng.getrandbits(32)
@@ -209,7 +220,11 @@ def run_world(plan, lp, sample_rate=None, rng_seam=None):
     """Execute the schedule under the real tracer. Returns (journal copy, logger, residue frames info)."""
     from monkeytype.tracing import trace_calls
 
+    import gc
+
     rt.reset()
+    gc.collect()
+    D.get_driver()  # compiled outside the session: no harness frame may depend on process history
     mat = D.Mat(lp)
     top = mat.script(plan["script"])
     logger = TeeLogger(plan.get("faults") or ())
